@@ -99,3 +99,26 @@ Example C12_nonvacuous : forall (k0 : nat) (ths : list (list anymsg)) (sch : lis
   (k0 + length (concat ths) <= 256)%nat ->
   NoDup (log_fresh_ids (ps_log (pool_run rnd_demo (pool_init k0 ths) sch))).
 Proof. exact ids_distinct_demo. Qed.
+
+(* ---- ids and option objects (model/OptCells.v): in every state reachable by constructor calls, Chunk() calls,
+   caller-supplied ids and option edits, two messages never carry the same generated id; a message is born
+   without an id; an id that is there is kept by Chunk() ---- *)
+From FF Require Import model.OptCells.
+From FF Require proofs.OptCells_Proofs.
+
+Theorem C12_generated_ids_distinct : forall (ops : list oop) (m m' : nat) (cl cl' : ocell) (k : nat),
+  oview (orun false ops) m = Some cl -> oview (orun false ops) m' = Some cl' ->
+  oc_chunk cl = IdGen k -> oc_chunk cl' = IdGen k -> m = m'.
+Proof. exact OptCells_Proofs.opt_ids_distinct. Qed.
+Print Assumptions C12_generated_ids_distinct.
+
+Theorem C12_born_without_id : forall (s : ostate) (k : ctor),
+  match oview (ostep false s (ONew k)) (length (os_msgs s)) with Some cl => oc_chunk cl = IdNone | None => True end.
+Proof. exact OptCells_Proofs.opt_born_clean. Qed.
+Print Assumptions C12_born_without_id.
+
+Theorem C12_id_kept : forall (s : ostate) (m : nat) (cl : ocell),
+  OptCells_Proofs.OInv s -> oview s m = Some cl -> oc_chunk cl <> IdNone ->
+  oview (ostep false s (OChunk m)) m = Some cl.
+Proof. exact OptCells_Proofs.opt_id_kept. Qed.
+Print Assumptions C12_id_kept.
